@@ -202,6 +202,7 @@ fn mut_probe_body(raw: &'static [u8], want_array: bool) {
     let mut o = OwnedLazyValue::new(JsonSlice::Raw(raw), HasEsc::Possible);
     let hit = if want_array { o.as_array_mut().is_some() } else { o.as_object_mut().is_some() };
     assert!(!hit);
+    kani::cover!(!hit);
     match &o.0 {
         LazyPacked::Raw(r) => assert!(r.raw.as_bytes().len() == raw.len() && r.raw.as_bytes()[0] == raw[0]),
         _ => panic!("a failed mutable probe must not replace the raw value"),
@@ -219,6 +220,76 @@ fn u_owned_mut_probe_keeps_raw() {
     mut_probe_body(b"\"a\\/b\"", false);
     mut_probe_body(b"{}", true);
     mut_probe_body(b"[]", false);
+}
+
+/// C13 U-owned-get-mut-probe: `get_mut` with an index kind that cannot apply (a key into a
+/// number, a string or an array; a position into an object) answers None without decoding and
+/// leaves the value raw, so it still serializes back to its source text.
+fn get_mut_probe_body<I: crate::index::Index>(raw: &'static [u8], idx: I) {
+    use crate::JsonValueMutTrait;
+    let mut o = OwnedLazyValue::new(JsonSlice::Raw(raw), HasEsc::Possible);
+    let hit = o.get_mut(idx).is_some();
+    assert!(!hit);
+    kani::cover!(!hit);
+    match &o.0 {
+        LazyPacked::Raw(r) => assert!(r.raw.as_bytes().len() == raw.len() && r.raw.as_bytes()[0] == raw[0]),
+        _ => panic!("a failed mutable lookup must not replace the raw value"),
+    }
+    core::mem::forget(o);
+}
+
+#[kani::proof]
+#[kani::unwind(6)]
+#[kani::stub(crate::parser::Parser::load_owned_lazyvalue, cut_load_forbidden)]
+#[kani::stub(crate::reader::Read::from, cut_read_from)]
+#[kani::stub(core::mem::drop, drop_cut)]
+fn u_owned_get_mut_probe_keeps_raw() {
+    get_mut_probe_body(b"1.50", "k");
+    get_mut_probe_body(b"1E2", 0usize);
+    get_mut_probe_body(b"\"a\\/b\"", "k");
+    get_mut_probe_body(b"[]", "k");
+    get_mut_probe_body(b"{}", 0usize);
+}
+
+/// C13 U-owned-clone-loaded: cloning an owned-lazy value whose decoding is already cached (any
+/// shared accessor ran) yields a value that is still the raw text -- same bytes, so it serializes
+/// verbatim and `as_raw_number` still answers -- and that owns its own copy of the cache
+/// (F12: the clone became the *decoded* value: 1.50 -> 1.5, "A\/B" -> "A/B").
+/// The cached decoding is a concrete scalar; container decodings (recursive clone glue) are outside.
+fn clone_loaded_body(raw: &'static str, cached: Parsed, loaded: bool) {
+    let cache = if loaded { Box::into_raw(Box::new(cached)) } else { core::mem::forget(cached); std::ptr::null_mut() };
+    let o = LazyPacked::Raw(LazyRaw { raw: FastStr::from_static_str(raw), parsed: AtomicPtr::new(cache) });
+    let c = o.clone();
+    match &c {
+        LazyPacked::Raw(r) => {
+            assert!(r.raw.as_bytes().len() == raw.len());
+            assert!(r.raw.as_bytes()[0] == raw.as_bytes()[0] && r.raw.as_bytes()[raw.len() - 1] == raw.as_bytes()[raw.len() - 1]);
+            let p = r.parsed.load(Ordering::Acquire);
+            // the clone never shares the original's box (each LazyRaw frees its own on drop)
+            assert!(p.is_null() || p != cache);
+            assert!(loaded || p.is_null());
+        }
+        _ => panic!("the clone of a raw value must still be the raw text"),
+    }
+    core::mem::forget(c);
+    core::mem::forget(o);
+    kani::cover!(true);
+}
+
+#[kani::proof]
+#[kani::unwind(4)]
+#[kani::stub(core::mem::drop, drop_cut)]
+fn u_owned_clone_loaded_keeps_raw() {
+    unsafe { INTERFERE_KIND = 0 };
+    clone_loaded_body("1.50", Parsed::Bool(true), true);
+}
+
+#[kani::proof]
+#[kani::unwind(4)]
+#[kani::stub(core::mem::drop, drop_cut)]
+fn u_owned_clone_unloaded_keeps_raw() {
+    unsafe { INTERFERE_KIND = 0 };
+    clone_loaded_body("\"A\\/B\"", Parsed::Null, false);
 }
 
 /// C13/C01 U-owned-view: the shared views returned by `as_array()` / `as_object()` of a value
